@@ -113,7 +113,7 @@ def sweep_programs(ctx):
             add({"fam": "batch", "kind": kind, "lens": list(range(n, min(n + k, 201)))})
             n += k
             i += 1
-    add({"fam": "users", "n": 40 if q else 400})
+    add({"fam": "users", "n": 40 if q else 400, "idx": 12 if q else 40})
     return P
 
 
@@ -309,7 +309,7 @@ def selftest(ctx, cfg, trace):
         k = e.get("fn") or e.get("op")
         if k == "apply":
             k = "apply:" + json.loads(lines[lib.run_of_line(lines, i + 1)[0]])["prog"]["kind"]
-        if k == "init":
+        if k == "init" or e.get("res") == []:
             continue
         if k not in want:
             want[k] = i
